@@ -1,4 +1,4 @@
-\* thorough tier: every resolv.conf of <= 4 lines over the 24-class MidAlphabet
+\* thorough tier: every resolv.conf of <= 4 lines over the 25-class MidAlphabet
 SPECIFICATION Spec
 CONSTANTS
   Alphabet <- MidAlphabet
